@@ -10,7 +10,7 @@ from ..pool import guarded, run_cases
 
 THEOREMS = ["C01_default_in_prose", "C01_default_announced_once", "C01_default_stripped", "C01_quote_idempotent", "C01_example",
             "C01_rest_scan_lossless", "C01_rest_scan_splits_at_tokens", "C01_rest_emit_canonical", "C01_rest_parse_canonical",
-            "C01_rest_roundtrip", "C01_rest_roundtrip_return_only", "C01_rest_roundtrip_no_types", "C01_rest_emit_indented_canonical", "C01_rest_roundtrip_indented", "C01_rest_example", "C01_rest_tokens_are_the_sources", "C01_no_announcer_no_default", "C01_default_text_roundtrip", "C01_text_without_full_stop_is_kept", "C01_default_text_examples", "C01_announcers_are_the_sources", "C01_rest_default_roundtrip", "C01_rest_default_example", "C01_rest_text_is_detected_as_rest", "C01_style_tokens_are_the_sources", "C01_style_examples", "C01_google_params_roundtrip", "C01_google_line_not_afterward", "C01_google_examples", "C01_numpy_unit_roundtrip", "C01_numpy_params_roundtrip", "C01_numpy_without_types_refuted", "C01_numpy_example", "C01_rest_return_line_value", "C01_rest_param_line_value", "C01_rest_return_line_with_colons", "C01_google_docstring_roundtrip", "C01_google_docstring_example", "C01_numpy_docstring_roundtrip", "C01_numpy_docstring_example", "C01_google_emit_text", "C01_google_emit_parse_roundtrip", "C01_google_emit_example", "C01_numpy_emit_text", "C01_numpy_emit_parse_roundtrip", "C01_numpy_emit_example"]
+            "C01_rest_roundtrip", "C01_rest_roundtrip_return_only", "C01_rest_roundtrip_no_types", "C01_rest_emit_indented_canonical", "C01_rest_roundtrip_indented", "C01_rest_example", "C01_rest_tokens_are_the_sources", "C01_no_announcer_no_default", "C01_default_text_roundtrip", "C01_text_without_full_stop_is_kept", "C01_default_text_examples", "C01_announcers_are_the_sources", "C01_rest_default_roundtrip", "C01_rest_default_example", "C01_rest_text_is_detected_as_rest", "C01_style_tokens_are_the_sources", "C01_style_examples", "C01_google_params_roundtrip", "C01_google_line_not_afterward", "C01_google_examples", "C01_numpy_unit_roundtrip", "C01_numpy_params_roundtrip", "C01_numpy_without_types_refuted", "C01_numpy_example", "C01_rest_return_line_value", "C01_rest_param_line_value", "C01_rest_return_line_with_colons", "C01_google_docstring_roundtrip", "C01_google_docstring_example", "C01_numpy_docstring_roundtrip", "C01_numpy_docstring_example", "C01_google_emit_text", "C01_google_emit_parse_roundtrip", "C01_google_emit_example", "C01_numpy_emit_text", "C01_numpy_emit_parse_roundtrip", "C01_numpy_emit_example", "C01_suffix_defaults_are_kept", "C01_defaults_come_out_as_a_suffix", "C01_forced_defaults_example"]
 # no " of " / " or ": those make _set_name_and_type infer a type from the prose (parse_adhoc_doc_for_typ, C17's subject), outside Model/RestDoc.v
 REST_WORDS = ["the", "size", "within", "buffer", "in", "bytes", "name", "used", "for", "lookup", "how", "many", "items", "(optional)", "e.g.", "a-b",
               "x_y", "[units]", "100%", "fast;", "slow,", "path/to", "it's", '"quoted"', "param", "type", "return", "rtype", "3.5", "N/A", "é"]
@@ -470,6 +470,9 @@ def run(ctx):
     n_ne, ne_bad = gtie.compare_emit_numpy([gtie.gen(ctx.rng) for _ in range(150 if ctx.quick else 4000)])
     corr += ne_bad[:3]
     agg["numpy_entries"] += n_ne
+    n_f, f_bad = gtie.compare_force([gtie.gen_force(ctx.rng) for _ in range(200 if ctx.quick else 6000)])
+    corr += f_bad[:3]
+    agg["google_lines"] += n_f
     cf_bad = edtie.casefold_facts()
     if cf_bad:
         corr.insert(0, {"stage": "str.casefold facts assumed by Model/ExtractDefault.v:fold_char", "code_points": cf_bad[:10]})
